@@ -138,6 +138,9 @@ func usedInLoop(li *loopInfo, phi *ssa.Phi) bool {
 func (fr *Frame) structuralChecks() {
 	c := fr.c
 	fc := fr.fc
+	if fc != nil && fc.LocModel {
+		fr.checkJoin()
+	}
 	if fc == nil || (!fc.Kernel && !fc.HasStates) {
 		return
 	}
@@ -770,4 +773,63 @@ func readsIndexZero(call *ssa.Call) bool {
 		return true
 	}
 	return false
+}
+
+// checkJoin (C05): the function that spawns one goroutine per cell waits for
+// all of them: a spawn loop and a receive loop with the same bound, one `go`
+// and one channel receive per iteration, the receive on the channel the
+// goroutine sends on.
+func (fr *Frame) checkJoin() {
+	c := fr.c
+	fn := fr.fn
+	var goLoop, recvLoop *loopInfo
+	var nGo, nRecv int
+	for _, li := range fr.loops {
+		if li.parent != nil {
+			continue
+		}
+		for b := range li.blocks {
+			for _, in := range b.Instrs {
+				switch x := in.(type) {
+				case *ssa.Go:
+					goLoop = li
+					nGo++
+				case *ssa.UnOp:
+					if x.Op == token.ARROW {
+						recvLoop = li
+						nRecv++
+					}
+				}
+			}
+		}
+	}
+	if goLoop == nil {
+		return
+	}
+	ok := recvLoop != nil && recvLoop != goLoop && nGo == 1 && nRecv == 1
+	why := ""
+	if ok {
+		// same bound
+		bound := func(li *loopInfo) ssa.Value {
+			if ifi, isIf := li.header.Instrs[len(li.header.Instrs)-1].(*ssa.If); isIf {
+				if bo, isBo := ifi.Cond.(*ssa.BinOp); isBo && bo.Op == token.LSS {
+					return bo.Y
+				}
+			}
+			return nil
+		}
+		b1, b2 := bound(goLoop), bound(recvLoop)
+		if b1 == nil || b1 != b2 {
+			ok = false
+			why = ": the receive loop does not run to the same bound as the spawn loop"
+		}
+		// the receive loop comes after the spawn loop
+		if ok && !goLoop.header.Dominates(recvLoop.header) {
+			ok = false
+			why = ": the receive loop does not follow the spawn loop"
+		}
+	} else {
+		why = ": expected one spawn loop with one `go` and one receive loop with one receive"
+	}
+	c.structural("frame", "C05.join", ok, fn.Pos(), "Run waits for every cell goroutine before it returns (one receive per spawned goroutine)"+why)
 }
